@@ -12,11 +12,13 @@ import vlib
 
 
 def pre(res):
-    from gen import gen_polspacing
+    from gen import gen_polspacing, gen_spacings
 
     try:
         changed = gen_polspacing.main()
-        res.extra["generated"] = {"file": "lean/HypnoModel/Gen/PolSpacing.lean", "changed_since_last_run": bool(changed)}
+        changed2 = gen_spacings.main()
+        res.extra["generated"] = {"files": ["lean/HypnoModel/Gen/PolSpacing.lean", "lean/HypnoModel/Gen/Spacings.lean"],
+                                  "changed_since_last_run": bool(changed or changed2)}
     except Exception as e:
         res.extra["generated"] = {"error": "%s: %s" % (type(e).__name__, e)}
         res.gen_error = "%s: %s" % (type(e).__name__, e)
@@ -312,6 +314,76 @@ def check_grids(res, tier):
                     res.violation("grid-order:" + geo, "poloidal_distance not strictly increasing in y inside region %s" % rid, {"spec": g["spec"]})
 
 
+def check_regions(res, tier):
+    """the spacing functions of real EquilibriumRegions: each end gets the spacing length its *own* kind of end asks for (a target length at
+    a wall end, the X-point length at an X-point end, each with the option that belongs to that leg), for the 'monotonic' family (gradient
+    per unit of normalised index) and the 'sqrt' family (gradient at a wall end, sqrt coefficient at an X-point end)"""
+    import gridlab
+
+    XN, TN, TN_IL = 0.5, 1.5, 0.9      # non-orthogonal: X-point length, target length (all), inner-lower target length
+    XO, TO, TO_OL = 0.07, 0.2, 0.11    # orthogonal sqrt family: X-point length, target length (all), outer-lower target length
+    cases = [("lsn", {"orthogonal": False, "nonorthogonal_xpoint_poloidal_spacing_length": XN, "nonorthogonal_target_all_poloidal_spacing_length": TN}),
+             ("cdn", {"orthogonal": False, "nonorthogonal_xpoint_poloidal_spacing_length": XN, "nonorthogonal_target_all_poloidal_spacing_length": TN,
+                      "nonorthogonal_target_inner_lower_poloidal_spacing_length": TN_IL}),
+             ("lsn", {"xpoint_poloidal_spacing_length": XO, "target_all_poloidal_spacing_length": TO, "target_outer_lower_poloidal_spacing_length": TO_OL})]
+    if tier == "thorough":
+        cases += [("udn", dict(cases[0][1])), ("usn", dict(cases[2][1])), ("ldn", dict(cases[1][1]))]
+    for geo, extra in cases:
+        spec = gridlab.tokamak_spec(geo, options=extra)
+        try:
+            with warnings.catch_warnings(), contextlib.redirect_stdout(io.StringIO()):
+                warnings.simplefilter("ignore")
+                eq = gridlab.make_equilibrium(spec)
+        except Exception as e:  # explicit refusal
+            res.case(key=("regions-refused", geo, type(e).__name__), nontrivial=False)
+            continue
+        orth = extra.get("orthogonal", True)
+        for name, region in eq.regions.items():
+            lk, uk = region.kind.split(".")
+
+            def want(kind, which):
+                if kind == "X":
+                    return XO if orth else XN
+                leg = name.replace("_divertor", "")
+                key = ("target_%s_poloidal_spacing_length" if orth else "nonorthogonal_target_%s_poloidal_spacing_length") % leg
+                return extra.get(key, TO if orth else TN)
+
+            N = 2 * region.ny_noguards
+            N_norm = region.user_options.N_norm_prefactor * region.ny_total
+            with warnings.catch_warnings(), contextlib.redirect_stdout(io.StringIO()):
+                warnings.simplefilter("ignore")
+                L = region.totalDistance(psi=eq.psi)
+                try:
+                    sf = region.getSfuncFixedSpacing(N + 1, L, method="sqrt" if orth else "monotonic")
+                except ValueError:
+                    res.case(key=("region-sfunc-refused", geo, name), nontrivial=False)
+                    continue
+            res.case(key=("region-sfunc", geo, name, orth), nontrivial=True, sample={"op": "spacing function of a real region", "geometry": geo, "region": name,
+                                                                                     "kind": region.kind})
+            ev = lambda x: float(np.asarray(sf(np.array([float(x)]))).ravel()[0])  # noqa: E731
+            d = 1e-6
+            payload = {"geometry": geo, "options": extra, "region": name}
+            for end, kind, x0, sgn in (("lower", lk, 0.0, 1.0), ("upper", uk, float(N), -1.0)):
+                w = want(kind, end)
+                base = ev(x0)
+                if kind == "wall" or not orth:
+                    g = sgn * (ev(x0 + sgn * d) - base) / d * N_norm
+                    if abs(g - w) > 1e-3 * w:
+                        res.violation("region-end-gradient:%s" % ("sqrt" if orth else "monotonic"), "%s region %s (%s): the %s end is a%s end and asks for the spacing "
+                                      "length %.6g, the spacing function has ds/d(i/N_norm) = %.6g there" % (geo, name, region.kind, end, "n X-point" if kind == "X" else " wall",
+                                                                                                            w, g), payload)
+                else:
+                    # sqrt family at an X-point: ds/diN ~ a / sqrt(iN), i.e. s ~ 2 a sqrt(i/N_norm) to leading order
+                    dd = 1e-8
+                    a = sgn * (ev(x0 + sgn * dd) - base) / (2.0 * np.sqrt(dd / N_norm))
+                    if abs(a - w) > 2e-3 * w:
+                        res.violation("region-end-sqrt-coefficient", "%s region %s (%s): the %s end is an X-point end with xpoint_poloidal_spacing_length = %.6g, the spacing "
+                                      "function behaves like 2 * %.6g sqrt(i/N_norm) there" % (geo, name, region.kind, end, w, a), payload)
+            if abs(ev(0.0)) > 1e-12 or abs(ev(float(N)) - L) > 1e-9 * L:
+                res.violation("region-end-values", "%s region %s: s(0) = %r, s(N) - L = %r" % (geo, name, ev(0.0), ev(float(N)) - L), payload)
+        res.traces += 1
+
+
 def run(res, tier):
     r = vlib.rng("c10")
     res.rule = ("random (L, N in 1..120, N_norm in N..6N, end-spacing parameters spanning 0.1..6 of the uniform spacing, sqrt coefficients "
@@ -324,6 +396,7 @@ def run(res, tier):
                     "py2lean translation (incl. numpy.piecewise -> nested if-then-else, last condition wins) validated by the Float twins every run"]
     check_functions(res, r, 1600 if tier == "quick" else 60000)
     check_grids(res, tier)
+    check_regions(res, tier)
 
 
 def replay(rep):
